@@ -103,13 +103,13 @@ def aClassRef (c : ClassOpts) (v : PyVal) : Bool :=
 def aInline (v : PyVal) (k : List (String × PyVal) → Bool) : Bool :=
   match v with
   | .dict kvs => (match kwOfDict kvs with | none => false | some kw => k kw)
-  | .inst _ attrs => k (attrs.filter (fun a => a.1 != "_instantiated"))
+  | .inst _ attrs => k attrs
   | _ => false
 
 def nInline (v : PyVal) (k : List (String × PyVal) → PyVal) : PyVal :=
   match v with
   | .dict kvs => (match kwOfDict kvs with | none => v | some kw => k kw)
-  | .inst _ attrs => k (attrs.filter (fun a => a.1 != "_instantiated"))
+  | .inst _ attrs => k attrs
   | _ => v
 
 /-- required names present; no undeclared name unless additional properties are allowed -/
